@@ -35,6 +35,7 @@ class FsControl:
         self.fail_op_at = {}  # (op, k-th call of op) -> errno
         self.fail_all_ops = {}  # op -> errno (repeated fault)
         self.fail_label_at = {}  # (label, k-th call of that session) -> errno
+        self.fail_label_from = {}  # label -> (k, errno): every call of that session from its k-th on fails
         self.per_label = {}
         self.on_fault = []  # callables(label, op, n)
         self.only_label = None  # restrict fail_all_ops to one session
@@ -48,6 +49,7 @@ class FsControl:
         self.in_flight = 0  # calls currently sleeping inside the backend
         self.max_in_flight = 0
         self.keep_calls = True
+        self.delay_log = []  # (vtime, seconds, label) of every injected backend delay
 
     async def pre(self, inst, op, path):
         self.n += 1
@@ -60,6 +62,7 @@ class FsControl:
             d = lo if hi <= lo else self.rng.uniform(lo, hi)
             self.in_flight += 1
             self.max_in_flight = max(self.max_in_flight, self.in_flight)
+            self.delay_log.append((self.loop.time(), d, label))
             try:
                 await asyncio.sleep(d)
             finally:
@@ -71,6 +74,8 @@ class FsControl:
                 err = self.fail_op_at.get((op, k))
             if err is None:
                 err = self.fail_label_at.get((label, kl))
+            if err is None and label in self.fail_label_from and kl >= self.fail_label_from[label][0]:
+                err = self.fail_label_from[label][1]
             if err is None and (self.only_label is None or self.only_label == label):
                 err = self.fail_all_ops.get(op)
         rec = [n, label, op, str(path) if path is not None else None, "ok"]
